@@ -18,7 +18,7 @@ ToSet(s) == {s[i] : i \in DOMAIN s}
 
 \* ids of the known findings whose deviation actions are enabled (empty = strict)
 AllowIds == IF "ALLOW" \in DOMAIN IOEnv THEN IOEnv.ALLOW ELSE ""
-Allow == {id \in {"KF-C05-notlonger", "KF-C14-envelope"} : \E i \in 1..(Len(AllowIds) - Len(id) + 1) : SubSeq(AllowIds, i, i + Len(id) - 1) = id}
+Allow == {id \in {"KF-C05-stale-longfork", "KF-C05-notlonger", "KF-C14-envelope"} : \E i \in 1..(Len(AllowIds) - Len(id) + 1) : SubSeq(AllowIds, i, i + Len(id) - 1) = id}
 
 CfgOf(r) == [peers |-> ToSet(r.cfg.peers), lastN |-> r.cfg.lastN, allow |-> Allow, msgTimeout |-> 60, refreshLag |-> 8]
 
@@ -88,6 +88,10 @@ Step(r) ==
                                 /\ r.a.during = "Proof" /\ r.a.msg = "long fork detected"
                                 /\ peer[r.a.args.p].req.on /\ peer[r.a.args.p].req.fork
                                 /\ r.a.args.kind = "honest"
+                                \* ... of a fork that really shares none of the remembered headers
+                                /\ \/ ForkIsLong(r.a.args.last)
+                                   \/ /\ "KF-C05-stale-longfork" \in cfg.allow
+                                      /\ PrintT(<<"KNOWN-FINDING", "KF-C05-stale-longfork", r.a.args.p, r.a.args.last, tip>>)
                                 /\ UNCHANGED <<now, peer, tip, tipTD, lastN>>
       [] OTHER               -> FALSE   \* other panics, BadRequest: never a step of the specification
 
